@@ -1397,6 +1397,10 @@ func FunExpr(query *Query, current Map, expr *sqlparser.FuncExpr, opts ...ExprOp
 				err = e
 				return e
 			}
+			if len(slice) == 0 {
+				err = fmt.Errorf("too few arguments")
+				return err
+			}
 			rs = slice[0]
 			return nil
 		})
